@@ -49,7 +49,26 @@ CheckGeom(e) ==
   ELSE IF e.unionok /\ e.unionenv # Join(want, e.otherenv) THEN "union-is-not-the-join"
   ELSE "ok"
 
-Check(e) == IF e.panic # "" THEN "panic" ELSE IF e.kind = "algebra" THEN CheckAlgebra(e) ELSE CheckGeom(e)
+\* The XY vector helpers (Sub, Add, Scale, Cross, Dot, Midpoint, Less, Length, Unit) on integer vectors.
+RECURSIVE IsqrtB(_,_,_)
+IsqrtB(n,lo,hi) == IF lo >= hi THEN lo ELSE LET m == (lo + hi + 1) \div 2 IN IF m*m <= n THEN IsqrtB(n,m,hi) ELSE IsqrtB(n,lo,m-1)
+CheckXY(e) ==
+  LET u == e.u v == e.v n2 == u[1]*u[1] + u[2]*u[2] IN
+  IF e.sub # <<u[1]-v[1], u[2]-v[2]>> THEN "xy-sub"
+  ELSE IF e.add # <<u[1]+v[1], u[2]+v[2]>> THEN "xy-add"
+  ELSE IF e.scale # <<e.k*u[1], e.k*u[2]>> THEN "xy-scale"
+  ELSE IF e.cross # u[1]*v[2] - u[2]*v[1] THEN "xy-cross"
+  ELSE IF e.dot # u[1]*v[1] + u[2]*v[2] THEN "xy-dot"
+  ELSE IF e.mid2 # <<u[1]+v[1], u[2]+v[2]>> THEN "xy-midpoint"
+  ELSE IF e.less # (u[1] < v[1] \/ (u[1] = v[1] /\ u[2] < v[2])) THEN "xy-less"
+  ELSE IF e.lessrev # (v[1] < u[1] \/ (u[1] = v[1] /\ v[2] < u[2])) THEN "xy-less"
+  \* floor(32 * |u|) is the integer square root of 1024 |u|^2 (|u|^2 <= 4624; one unit of slack for the rounding of sqrt)
+  ELSE IF e.len32 # IsqrtB(n2 * 1024, 0, 46340) /\ e.len32 + 1 # IsqrtB(n2 * 1024, 0, 46340) THEN "xy-length"
+  \* Unit() scaled back by the length is u again (not defined for the zero vector)
+  ELSE IF n2 > 0 /\ (~e.unitfin \/ e.unit # <<1024*u[1], 1024*u[2]>>) THEN "xy-unit"
+  ELSE "ok"
+
+Check(e) == IF e.panic # "" THEN "panic" ELSE IF e.kind = "xy" THEN CheckXY(e) ELSE IF e.kind = "algebra" THEN CheckAlgebra(e) ELSE CheckGeom(e)
 
 Init == sh \in 1..S /\ l = sh
 Next == /\ l <= Len(Trace) /\ l' = l + S /\ sh' = sh
